@@ -220,9 +220,17 @@ impl Shared {
             // a child maker that itself uses the pool it runs on (parallel scoring inside the
             // operator): it gives the worker back to rayon and forks a nested job
             _ => {
-                let _ = rayon::yield_now();
-                let (a, b) = rayon::join(|| std::hint::black_box(h % 7), || std::hint::black_box(h % 11));
-                std::hint::black_box(a + b);
+                // bounded: a worker that yields runs other pending child-maker jobs on its own
+                // stack, which yield in turn - without a bound the nesting grows with the number of
+                // pending jobs and the *probe* would exhaust the worker's stack
+                thread_local! { static NESTING: std::cell::Cell<u32> = const { std::cell::Cell::new(0) }; }
+                if NESTING.with(std::cell::Cell::get) < 3 {
+                    NESTING.with(|n| n.set(n.get() + 1));
+                    let _ = rayon::yield_now();
+                    let (a, b) = rayon::join(|| std::hint::black_box(h % 7), || std::hint::black_box(h % 11));
+                    std::hint::black_box(a + b);
+                    NESTING.with(|n| n.set(n.get() - 1));
+                }
             }
         }
     }
